@@ -367,7 +367,23 @@ def apply_edit(w, c):
     return True
 
 
-def run_worker(w, idx, queue, lock, props_mode, results_path):
+def test_verdict(w, res):
+    try:
+        t = subprocess.run("cargo test --workspace --no-fail-fast --offline 2>&1", shell=True, cwd=w, capture_output=True, text=True, timeout=2400,
+                           env=dict(os.environ, CARGO_NET_OFFLINE="true", CARGO_TARGET_DIR=os.path.join(w, "target")))
+        out = t.stdout
+        failed = t.returncode != 0 or re.search(r"test result: FAILED|targets? failed|could not compile", out)
+        passed = re.search(r"test result: ok", out)
+        if failed or not passed:
+            res["detail"] = "\n".join(x for x in out.splitlines() if "FAILED" in x or "failed" in x)[:300]
+            return "killed-by-tests"
+        return "SURVIVOR"
+    except subprocess.TimeoutExpired:
+        res["detail"] = "timeout"
+        return "killed-by-tests"
+
+
+def run_worker(w, idx, queue, lock, props_mode, results_path, phase="both"):
     cache = os.path.join(VERIF, ".cache", "sweep-" + os.path.basename(w))
     ev = os.path.join(cache, "ev")
     os.makedirs(ev, exist_ok=True)
@@ -381,6 +397,8 @@ def run_worker(w, idx, queue, lock, props_mode, results_path):
         res = {"id": c["id"]}
         if not apply_edit(w, c):
             res["status"] = "stale"
+        elif phase == "test":
+            res["status"] = test_verdict(w, res)
         else:
             env = dict(os.environ, VERIF_REPO=w, VERIF_EVIDENCE_DIR=ev, VERIF_REPORT_DIR=ev, VERIF_FACTS_TAG="sw-%s-" % os.path.basename(w), VERIF_CACHE_DIR=cache,
                        VERIF_SKIP_ENGINE_SELFTEST="1", VERIF_NO_SELFTEST="1")
@@ -392,23 +410,11 @@ def run_worker(w, idx, queue, lock, props_mode, results_path):
                 res["status"] = "caught"
                 res["by"] = sorted({l.strip().split("|")[0] for l in r.stdout.splitlines() if re.match(r"^  C\d\d\|", l)})
                 res["keys"] = [l.strip()[:160] for l in r.stdout.splitlines() if re.match(r"^  C\d\d\|", l)][:6]
+            elif phase == "check":
+                res["status"] = "silent"
             else:
                 # silent: does the pinned suite reject it anyway?
-                try:
-                    t = subprocess.run("cargo test --workspace --no-fail-fast --offline 2>&1", shell=True, cwd=w, capture_output=True, text=True, timeout=1500,
-                                       env=dict(os.environ, CARGO_NET_OFFLINE="true", CARGO_TARGET_DIR=os.path.join(w, "target")))
-                    out = t.stdout
-                    failed = t.returncode != 0 or re.search(r"test result: FAILED|targets? failed|could not compile", out)
-                    passed = re.search(r"test result: ok", out)
-                    if failed or not passed:
-                        res["status"] = "killed-by-tests"
-                        res["detail"] = "\n".join(x for x in out.splitlines() if "FAILED" in x or "failed" in x)[:300]
-                    else:
-                        res["status"] = "SURVIVOR"
-                except subprocess.TimeoutExpired:
-                    res["status"] = "killed-by-tests"
-                    res["detail"] = "timeout"
-                    sh("pkill -f %s/target" % w)
+                res["status"] = test_verdict(w, res)
         res["secs"] = round(time.time() - t0)
         with lock:
             with open(results_path, "a") as fh:
@@ -417,23 +423,33 @@ def run_worker(w, idx, queue, lock, props_mode, results_path):
         sh("git -C %s checkout -- ." % w)
 
 
-def run(workers, limit, props_mode, only_props, shard=None):
+def run(workers, limit, props_mode, only_props, shard=None, phase="both"):
     plan = [json.loads(l) for l in open(os.path.join(SW, "plan.jsonl"))]
     if shard:
         i, n = [int(x) for x in shard.split("/")]
         plan = [c for k, c in enumerate(plan) if k % n == i]
     rp = os.path.join(SW, "results.jsonl")
     done = set()
+    silent = set()
     if os.path.exists(rp):
-        done = {json.loads(l)["id"] for l in open(rp)}
-    queue = [c for c in plan if c["id"] not in done and (not only_props or c["prop"] in only_props)]
+        for l in open(rp):
+            r = json.loads(l)
+            if r["status"] == "silent":
+                silent.add(r["id"])
+            else:
+                done.add(r["id"])
+                silent.discard(r["id"])
+    if phase == "test":
+        queue = [c for c in plan if c["id"] in silent and c["id"] not in done]
+    else:
+        queue = [c for c in plan if c["id"] not in done and c["id"] not in silent and (not only_props or c["prop"] in only_props)]
     if limit:
         queue = queue[:limit]
     print("to run: %d (done %d)" % (len(queue), len(done)))
     lock = threading.Lock()
     ts = []
     for i, w in enumerate(workers):
-        t = threading.Thread(target=run_worker, args=(w, i, queue, lock, props_mode, rp))
+        t = threading.Thread(target=run_worker, args=(w, i, queue, lock, props_mode, rp, phase))
         t.start()
         ts.append(t)
     for t in ts:
@@ -488,7 +504,7 @@ def main():
         workers = opt("--workers").split(",")
         lim = int(opt("--limit", "0"))
         only = [x for x in a[1:] if re.match(r"^C\d\d$", x)]
-        run(workers, lim, opt("--props", "all"), only, opt("--shard"))
+        run(workers, lim, opt("--props", "all"), only, opt("--shard"), opt("--phase", "both"))
     elif a[0] == "report":
         report()
     return 0
